@@ -301,6 +301,14 @@ def canonicalise_renamed_functions(raw, vocab_sigs, strip_lt, log=None):
         rivals = [lp2 for lp2 in lost if last(lp2) == last(lp)]
         if len(cands) == 1 and len(rivals) == 1:
             moved[cands[0]] = lp
+    # moved *and* renamed: the only lost function and the only new function with that signature
+    for lp, ls in lost.items():
+        if lp in ren.values() or lp in moved.values() or not ls or "<" in lp:
+            continue
+        cands = [np for np, ns in new.items() if np not in ren and np not in moved and ns == ls and "<" not in np and "{" not in np]
+        rivals = [lp2 for lp2, ls2 in lost.items() if ls2 == ls and lp2 not in ren.values() and lp2 not in moved.values()]
+        if len(cands) == 1 and len(rivals) == 1 and ls.count(",") + ls.count("->") >= 2:
+            moved[cands[0]] = lp
     if not ren and not moved:
         return {}
     # raw paths may carry lifetime arguments (`Type::<'a>::f`): rename by the last segment within the same parent
@@ -423,6 +431,8 @@ ADAPTORS = {
     "std::iter::Iterator::position": "position",
     "std::iter::Iterator::for_each": "for_each",
     "std::iter::Iterator::fold": "fold",
+    "std::iter::Iterator::min": "min",
+    "std::iter::Iterator::max": "max",
 }
 
 
@@ -626,12 +636,15 @@ def _desugar_one(c, bi, kind, fn, by_path, strip_lt):
     a_it = args[0]
     if a_it.get("k") not in ("move", "copy"):
         return None
-    nfun_args = {"all": 1, "any": 1, "find": 1, "position": 1, "for_each": 1, "fold": 2}[kind]
-    fun = _Fun(c, args[-1], by_path, strip_lt, nfun_args)
-    if not fun.ok:
-        return None
-    if fun.kind == "closure" and fun.site[0] != bi:
-        return None
+    if kind in ("min", "max"):
+        fun = None
+    else:
+        nfun_args = {"all": 1, "any": 1, "find": 1, "position": 1, "for_each": 1, "fold": 2}[kind]
+        fun = _Fun(c, args[-1], by_path, strip_lt, nfun_args)
+        if not fun.ok:
+            return None
+        if fun.kind == "closure" and fun.site[0] != bi:
+            return None
     snapshot = (copy.deepcopy(c["blocks"]), copy.deepcopy(c["locals"]), copy.deepcopy(c.get("promoted", [])))
     try:
         return _desugar_build(c, bi, kind, fn, fun, by_path, strip_lt)
@@ -659,28 +672,32 @@ def _desugar_build(c, bi, kind, fn, fun, by_path, strip_lt):
             defs, calls = _unique_def(c, a_it["place"]["l"])
             if len(defs) == 1 and not calls and defs[0]["rv"]["k"] == "ref" and defs[0]["rv"].get("mut") and not defs[0]["rv"]["place"]["p"]:
                 s = defs[0]["rv"]["place"]["l"]
-                if not c["locals"][s].get("user") and _uses(c, s) <= 2:
+                if _uses(c, s) <= 2:  # its definition and this borrow: nobody else sees the iterator afterwards
                     src_local = s
     elif not a_it["place"]["p"]:
         src_local = a_it["place"]["l"]
-    # a `.map(f)` stage directly in front of the adaptor: the loop runs over the inner iterator and applies f
-    map_fun = None
-    if src_local is not None:
-        defs, calls = _unique_def(c, src_local)
-        if not defs and len(calls) == 1:
-            mi, mblk = calls[0]
-            mt = mblk["term"]
-            mf = mt.get("func", {}).get("fn") if mt.get("func", {}).get("k") == "const" else None
-            if mf and mf.get("def") == "std::iter::Iterator::map" and len(mt["args"]) == 2 and mt["args"][0].get("k") in ("move", "copy") and not mt["args"][0]["place"]["p"] and not mblk.get("cleanup") and mi != bi:
-                mfun = _Fun(c, mt["args"][1], by_path, strip_lt, 1)
-                if mfun.ok and (mfun.kind == "fn" or mfun.site[0] == mi) and (by_ref or _uses(c, src_local) <= 2):
-                    map_fun = (mi, mfun, mt["args"][0]["place"]["l"], (mf.get("targs") or [None])[0])
+    # `.map(f)` / `.filter(p)` stages in front of the adaptor: the loop runs over the innermost iterator and applies
+    # them to each item (outermost stage last)
+    stages = []
+    cur = src_local
+    while cur is not None and len(stages) < 4:
+        defs, calls = _unique_def(c, cur)
+        if defs or len(calls) != 1:
+            break
+        mi, mblk = calls[0]
+        mt = mblk["term"]
+        mf = mt.get("func", {}).get("fn") if mt.get("func", {}).get("k") == "const" else None
+        if not mf or mf.get("def") not in ("std::iter::Iterator::map", "std::iter::Iterator::filter") or len(mt["args"]) != 2:
+            break
+        if mt["args"][0].get("k") not in ("move", "copy") or mt["args"][0]["place"]["p"] or mblk.get("cleanup") or mi == bi:
+            break
+        sf = _Fun(c, mt["args"][1], by_path, strip_lt, 1)
+        if not sf.ok or (sf.kind == "closure" and sf.site[0] != mi) or (cur != src_local and _uses(c, cur) > 2) or (cur == src_local and not by_ref and _uses(c, cur) > 2):
+            break
+        stages.insert(0, (mf["def"].split("::")[-1], sf, mi, (mf.get("targs") or [None])[0]))
+        cur = mt["args"][0]["place"]["l"]
     L = c["locals"]
-    if fun.kind == "closure":
-        pred_arg_ty = fun.arg_tys[-1]
-    else:
-        pred_arg_ty = None
-    # item type (after the map stage, if any)
+    pred_arg_ty = fun.arg_tys[-1] if (fun is not None and fun.kind == "closure") else None
     if kind == "find":
         if pred_arg_ty is None or not pred_arg_ty.startswith("&"):
             raise _Abort()
@@ -690,134 +707,174 @@ def _desugar_build(c, bi, kind, fn, fun, by_path, strip_lt):
     else:
         item_ty = "?"
     inner_item_ty = item_ty
-    if map_fun is not None:
-        mi, mfun, inner_local, inner_ty = map_fun
-        inner_item_ty = mfun.arg_tys[0] if mfun.kind == "closure" else "?"
-        iter_ty = inner_ty or c["locals"][inner_local]["ty"]
-    base = len(L)
-    r_iter, opt, disc, item = base, base + 1, base + 2, base + 3
-    L.extend([_local("&mut " + iter_ty), _local("std::option::Option<%s>" % inner_item_ty), _local("isize"), _local(item_ty)])
-    item0 = item
-    if map_fun is not None:
-        item0 = len(L)
-        L.append(_local(inner_item_ty))
-    item_ref = idx = acc = ret = None
-    if kind == "find":
-        item_ref = len(L)
-        L.append(_local("&" + item_ty))
+    if stages:
+        first = stages[0]
+        if first[1].kind == "closure":
+            a0 = first[1].arg_tys[0]
+            inner_item_ty = a0[1:] if (first[0] == "filter" and a0.startswith("&")) else a0
+        else:
+            inner_item_ty = "?"
+        iter_ty = first[3] or c["locals"][cur]["ty"]
+
+    def newl(ty):
+        L.append(_local(ty))
+        return len(L) - 1
+
+    r_iter, opt, disc = newl("&mut " + iter_ty), newl("std::option::Option<%s>" % inner_item_ty), newl("isize")
+    item0 = newl(inner_item_ty)
+    dest_ty = c["locals"][t["dest"]["l"]]["ty"] if not t["dest"]["p"] else "?"
+    item_ref = idx = acc = has = None
     if kind == "position":
-        idx = len(L)
-        L.append(_local("usize"))
+        idx = newl("usize")
     if kind == "fold":
-        acc = len(L)
-        L.append(_local(c["locals"][t["dest"]["l"]]["ty"] if not t["dest"]["p"] else "?"))
-    ret = len(L)
-    L.append(_local("()" if kind == "for_each" else (c["locals"][t["dest"]["l"]]["ty"] if kind == "fold" and not t["dest"]["p"] else "bool")))
+        acc = newl(dest_ty)
+    if kind in ("min", "max"):
+        acc = newl(item_ty if item_ty != "?" else "usize")
+        has = newl("bool")
+    ret = newl("()" if kind == "for_each" else (dest_ty if kind == "fold" else (item_ty if kind in ("min", "max") else "bool")))
     iterv = None
-    move_from = None
-    if map_fun is not None:
-        # the map call goes away: its receiver is the iterator of the loop
-        mi, mfun, inner_local, inner_ty = map_fun
-        mblk = c["blocks"][mi]
-        mfun.prepare()
-        iterv = len(L)
-        L.append(_local(iter_ty))
-        mblk["stmts"].append({"k": "assign", "place": {"l": iterv, "p": []}, "rv": {"k": "use", "op": {"k": "move", "place": {"l": inner_local, "p": []}}}, "line": line, "exp": False})
-        mblk["term"] = {"k": "goto", "t": mblk["term"]["t"]}
+    if stages:
+        # the adaptor calls of the stages go away: the innermost receiver is the iterator of the loop
+        for name_, sf, mi, _ty in stages:
+            sf.prepare()
+        first_mi = stages[0][2]
+        iterv = newl(iter_ty)
+        fb_ = c["blocks"][first_mi]
+        fb_["stmts"].append({"k": "assign", "place": {"l": iterv, "p": []}, "rv": {"k": "use", "op": {"k": "move", "place": {"l": cur, "p": []}}}, "line": line, "exp": False})
+        for name_, sf, mi, _ty in stages:
+            sb = c["blocks"][mi]
+            sb["term"] = {"k": "goto", "t": sb["term"]["t"]}
         it_place = {"l": iterv, "p": []}
     elif src_local is not None:
-        iterv = len(L)
-        L.append(_local(iter_ty))
-        move_from = {"l": src_local, "p": []}
+        iterv = newl(iter_ty)
         it_place = {"l": iterv, "p": []}
-    fun.prepare()
+    if fun is not None:
+        fun.prepare()
     blk = c["blocks"][bi]
-    if kind == "position":
-        blk["stmts"].append({"k": "assign", "place": {"l": idx, "p": []}, "rv": {"k": "use", "op": {"k": "const", "ty": "usize", "int": 0}}, "line": line, "exp": False})
-    if kind == "fold":
-        blk["stmts"].append({"k": "assign", "place": {"l": acc, "p": []}, "rv": {"k": "use", "op": copy.deepcopy(args[1])}, "line": line, "exp": False})
-    if move_from is not None:
-        blk["stmts"].append({"k": "assign", "place": {"l": iterv, "p": []}, "rv": {"k": "use", "op": {"k": "move", "place": move_from}}, "line": line, "exp": False})
-    dest, after = t["dest"], t["t"]
-    n0 = len(c["blocks"])
-    H, D, U, SOME, NONE, RET, EXIT, INC = n0, n0 + 1, n0 + 2, n0 + 3, n0 + 4, n0 + 5, n0 + 6, n0 + 7
-    blk["term"] = {"k": "goto", "t": H}
 
     def assign(place, rv):
         return {"k": "assign", "place": place, "rv": rv, "line": line, "exp": False}
 
-    next_fn = {"def": "std::iter::Iterator::next", "inst": "<%s as std::iter::Iterator>::next" % iter_ty, "targs": [iter_ty], "local": False, "trait": "std::iter::Iterator", "res_local": False, "res_kind": "item"}
-    next_fn["res"] = _next_impl_path(iter_ty)
-    next_fn["res_inst"] = next_fn["inst"]
-    some_payload = {"l": opt, "p": [{"downcast": "Some", "v": 1}, {"f": "0", "i": 0, "adt": "std::option::Option", "ty": inner_item_ty}]}
+    def loc(l):
+        return {"l": l, "p": []}
+
+    def mv(l):
+        return {"k": "move", "place": loc(l)}
+
+    if kind == "position":
+        blk["stmts"].append(assign(loc(idx), {"k": "use", "op": {"k": "const", "ty": "usize", "int": 0}}))
+    if kind == "fold":
+        blk["stmts"].append(assign(loc(acc), {"k": "use", "op": copy.deepcopy(args[1])}))
+    if kind in ("min", "max"):
+        blk["stmts"].append(assign(loc(has), {"k": "use", "op": _bool_const(False)}))
+    if not stages and src_local is not None:
+        blk["stmts"].append(assign(loc(iterv), {"k": "use", "op": mv(src_local)}))
+    dest, after = t["dest"], t["t"]
+    n0 = len(c["blocks"])
+    new = []
+
+    def add(b_):
+        new.append(b_)
+        return n0 + len(new) - 1
+
+    def goto(x):
+        return {"k": "goto", "t": x}
+
+    def blk_(stmts, term):
+        return {"stmts": stmts, "term": term, "cleanup": cleanup}
+
     opt_some = lambda op: {"k": "agg", "agg": "adt", "adt": "std::option::Option", "variant": "Some", "vidx": 1, "fnames": ["0"], "fields": [op]}
     opt_none = {"k": "agg", "agg": "adt", "adt": "std::option::Option", "variant": "None", "vidx": 0, "fnames": [], "fields": []}
     unit = {"k": "use", "op": {"k": "const", "ty": "()", "zst": True}}
-    new = []
-    new.append({"stmts": [assign({"l": r_iter, "p": []}, {"k": "ref", "mut": True, "place": it_place})],
-                "term": {"k": "call", "func": {"k": "const", "ty": "fn(&mut %s) -> std::option::Option<%s> {<%s as std::iter::Iterator>::next}" % (iter_ty, inner_item_ty, iter_ty), "fn": next_fn}, "args": [{"k": "move", "place": {"l": r_iter, "p": []}}], "dest": {"l": opt, "p": []}, "t": D, "unwind": unwind, "line": line, "exp": False},
-                "cleanup": cleanup})
-    new.append({"stmts": [assign({"l": disc, "p": []}, {"k": "discr", "place": {"l": opt, "p": []}, "ty": "std::option::Option<%s>" % inner_item_ty, "variants": [[0, "None"], [1, "Some"]]})],
-                "term": {"k": "switch", "op": {"k": "move", "place": {"l": disc, "p": []}}, "ty": "isize", "targets": [[0, NONE], [1, SOME]], "otherwise": U, "line": line, "exp": False},
-                "cleanup": cleanup})
-    new.append({"stmts": [], "term": {"k": "unreachable"}, "cleanup": cleanup})
-    # SOME: the item, mapped if there is a map stage, then the function of the adaptor
-    some_blk = {"stmts": [assign({"l": item0, "p": []}, {"k": "use", "op": {"k": "move", "place": some_payload}})], "term": None, "cleanup": cleanup}
-    new.append(some_blk)
-    none_val = {"all": {"k": "use", "op": _bool_const(True)}, "any": {"k": "use", "op": _bool_const(False)}, "find": opt_none, "position": opt_none, "for_each": unit, "fold": {"k": "use", "op": {"k": "move", "place": {"l": acc if acc is not None else 0, "p": []}}}}[kind]
-    new.append({"stmts": [assign(copy.deepcopy(dest), none_val)], "term": {"k": "goto", "t": after}, "cleanup": cleanup})
-    sw = lambda zero, other: {"k": "switch", "op": {"k": "move", "place": {"l": ret, "p": []}}, "ty": "bool", "targets": [[0, zero]], "otherwise": other, "line": line, "exp": False}
-    if kind == "all":
-        new.append({"stmts": [], "term": sw(EXIT, H), "cleanup": cleanup})
-        exit_val = {"k": "use", "op": _bool_const(False)}
-    elif kind == "any":
-        new.append({"stmts": [], "term": sw(H, EXIT), "cleanup": cleanup})
-        exit_val = {"k": "use", "op": _bool_const(True)}
-    elif kind == "find":
-        new.append({"stmts": [], "term": sw(H, EXIT), "cleanup": cleanup})
-        exit_val = opt_some({"k": "move", "place": {"l": item, "p": []}})
-    elif kind == "position":
-        new.append({"stmts": [], "term": sw(INC, EXIT), "cleanup": cleanup})
-        exit_val = opt_some({"k": "copy", "place": {"l": idx, "p": []}})
-    elif kind == "fold":
-        new.append({"stmts": [assign({"l": acc, "p": []}, {"k": "use", "op": {"k": "move", "place": {"l": ret, "p": []}}})], "term": {"k": "goto", "t": H}, "cleanup": cleanup})
-        exit_val = unit
+    next_fn = {"def": "std::iter::Iterator::next", "inst": "<%s as std::iter::Iterator>::next" % iter_ty, "targs": [iter_ty], "local": False, "trait": "std::iter::Iterator", "res_local": False, "res_kind": "item"}
+    next_fn["res"] = _next_impl_path(iter_ty)
+    next_fn["res_inst"] = next_fn["inst"]
+    H = n0
+    blk["term"] = goto(H)
+    # H, D, U: fetch the next item
+    add(blk_([assign(loc(r_iter), {"k": "ref", "mut": True, "place": it_place})],
+             {"k": "call", "func": {"k": "const", "ty": "fn(&mut %s) -> std::option::Option<%s> {<%s as std::iter::Iterator>::next}" % (iter_ty, inner_item_ty, iter_ty), "fn": next_fn}, "args": [mv(r_iter)], "dest": loc(opt), "t": n0 + 1, "unwind": unwind, "line": line, "exp": False}))
+    D = add(blk_([assign(loc(disc), {"k": "discr", "place": loc(opt), "ty": "std::option::Option<%s>" % inner_item_ty, "variants": [[0, "None"], [1, "Some"]]})], None))
+    U = add(blk_([], {"k": "unreachable"}))
+    some_payload = {"l": opt, "p": [{"downcast": "Some", "v": 1}, {"f": "0", "i": 0, "adt": "std::option::Option", "ty": inner_item_ty}]}
+    SOME = add(blk_([assign(loc(item0), {"k": "use", "op": {"k": "move", "place": some_payload}})], None))
+    NONE = add(blk_([], None))
+    new[D - n0]["term"] = {"k": "switch", "op": mv(disc), "ty": "isize", "targets": [[0, NONE], [1, SOME]], "otherwise": U, "line": line, "exp": False}
+    # the stages
+    cur_item = item0
+    tail = SOME  # block whose terminator is still open
+    used = []
+    for name_, sf, mi, _ty in stages:
+        if name_ == "map":
+            out_ty = sf.ret_ty if sf.kind == "closure" and sf.ret_ty else "?"
+            out = newl(out_ty)
+            CONT = add(blk_([], None))
+            entry = sf.emit([cur_item], out, CONT, line, unwind, cleanup, new, n0 + len(new))
+            new[tail - n0]["term"] = goto(entry)
+            tail = CONT
+            cur_item = out
+        else:
+            ity = c["locals"][cur_item]["ty"]
+            r = newl("&" + ity)
+            fbool = newl("bool")
+            PREP = add(blk_([assign(loc(r), {"k": "ref", "mut": False, "place": loc(cur_item)})], None))
+            TEST = add(blk_([], None))
+            entry = sf.emit([r], fbool, TEST, line, unwind, cleanup, new, n0 + len(new))
+            new[PREP - n0]["term"] = goto(entry)
+            new[tail - n0]["term"] = goto(PREP)
+            KEEP = add(blk_([], None))
+            new[TEST - n0]["term"] = {"k": "switch", "op": mv(fbool), "ty": "bool", "targets": [[0, H]], "otherwise": KEEP, "line": line, "exp": False}
+            tail = KEEP
+        if sf.kind == "closure":
+            used.append(sf.cpath)
+    item = cur_item
+    # the adaptor itself
+    sw = lambda zero, other: {"k": "switch", "op": mv(ret), "ty": "bool", "targets": [[0, zero]], "otherwise": other, "line": line, "exp": False}
+    if kind in ("min", "max"):
+        ord_fn = {"def": "std::cmp::Ord::%s" % kind, "inst": "<%s as std::cmp::Ord>::%s" % (item_ty, kind), "targs": [item_ty], "local": False, "trait": "std::cmp::Ord", "res": "std::cmp::Ord::%s" % kind, "res_inst": "<%s as std::cmp::Ord>::%s" % (item_ty, kind), "res_local": False, "res_kind": "item"}
+        FIRST = add(blk_([assign(loc(acc), {"k": "use", "op": mv(item)}), assign(loc(has), {"k": "use", "op": _bool_const(True)})], goto(H)))
+        UPD = add(blk_([assign(loc(acc), {"k": "use", "op": mv(ret)})], goto(H)))
+        CALL = add(blk_([], {"k": "call", "func": {"k": "const", "ty": "fn", "fn": ord_fn}, "args": [mv(acc), mv(item)], "dest": loc(ret), "t": UPD, "unwind": unwind, "line": line, "exp": False}))
+        new[tail - n0]["term"] = {"k": "switch", "op": {"k": "copy", "place": loc(has)}, "ty": "bool", "targets": [[0, FIRST]], "otherwise": CALL, "line": line, "exp": False}
+        SOME_OUT = add(blk_([assign(copy.deepcopy(dest), opt_some(mv(acc)))], goto(after)))
+        NONE_OUT = add(blk_([assign(copy.deepcopy(dest), opt_none)], goto(after)))
+        new[NONE - n0]["term"] = {"k": "switch", "op": {"k": "copy", "place": loc(has)}, "ty": "bool", "targets": [[0, NONE_OUT]], "otherwise": SOME_OUT, "line": line, "exp": False}
     else:
-        new.append({"stmts": [], "term": {"k": "goto", "t": H}, "cleanup": cleanup})
-        exit_val = unit
-    new.append({"stmts": [assign(copy.deepcopy(dest), exit_val)] if kind not in ("fold", "for_each") else [], "term": {"k": "goto", "t": after}, "cleanup": cleanup})
-    inc_stmts = []
-    if kind == "position":
-        inc_stmts.append(assign({"l": idx, "p": []}, {"k": "bin", "op": "Add", "a": {"k": "copy", "place": {"l": idx, "p": []}}, "b": {"k": "const", "ty": "usize", "int": 1}}))
-    new.append({"stmts": inc_stmts, "term": {"k": "goto", "t": H}, "cleanup": cleanup})
-    assert len(new) == 8
-    # the function stages, appended after the fixed blocks
-    nxt = n0 + 8
-    if kind == "find":
-        pred_args_prep = [assign({"l": item_ref, "p": []}, {"k": "ref", "mut": False, "place": {"l": item, "p": []}})]
-        pred_args = [item_ref]
-    elif kind == "fold":
-        pred_args_prep = []
-        pred_args = [acc, item]
-    else:
-        pred_args_prep = []
-        pred_args = [item]
-    extra = []
-    pred_entry = fun.emit(pred_args, ret, RET, line, unwind, cleanup, extra, nxt)
-    if pred_args_prep:
-        extra.append({"stmts": pred_args_prep, "term": {"k": "goto", "t": pred_entry}, "cleanup": cleanup})
-        pred_entry = nxt + len(extra) - 1
-    if map_fun is not None:
-        mi, mfun, inner_local, inner_ty = map_fun
-        map_entry = mfun.emit([item0], item, pred_entry, line, unwind, cleanup, extra, nxt + len(extra))
-        some_blk["term"] = {"k": "goto", "t": map_entry}
-    else:
-        some_blk["term"] = {"k": "goto", "t": pred_entry}
+        none_val = {"all": {"k": "use", "op": _bool_const(True)}, "any": {"k": "use", "op": _bool_const(False)}, "find": opt_none, "position": opt_none, "for_each": unit, "fold": {"k": "use", "op": mv(acc if acc is not None else 0)}}[kind]
+        new[NONE - n0]["stmts"].append(assign(copy.deepcopy(dest), none_val))
+        new[NONE - n0]["term"] = goto(after)
+        RET = add(blk_([], None))
+        if kind == "find":
+            item_ref = newl("&" + c["locals"][item]["ty"])
+            PREP = add(blk_([assign(loc(item_ref), {"k": "ref", "mut": False, "place": loc(item)})], None))
+            entry = fun.emit([item_ref], ret, RET, line, unwind, cleanup, new, n0 + len(new))
+            new[PREP - n0]["term"] = goto(entry)
+            new[tail - n0]["term"] = goto(PREP)
+        else:
+            entry = fun.emit([acc, item] if kind == "fold" else [item], ret, RET, line, unwind, cleanup, new, n0 + len(new))
+            new[tail - n0]["term"] = goto(entry)
+        if kind == "all":
+            EXIT = add(blk_([assign(copy.deepcopy(dest), {"k": "use", "op": _bool_const(False)})], goto(after)))
+            new[RET - n0]["term"] = sw(EXIT, H)
+        elif kind == "any":
+            EXIT = add(blk_([assign(copy.deepcopy(dest), {"k": "use", "op": _bool_const(True)})], goto(after)))
+            new[RET - n0]["term"] = sw(H, EXIT)
+        elif kind == "find":
+            EXIT = add(blk_([assign(copy.deepcopy(dest), opt_some(mv(item)))], goto(after)))
+            new[RET - n0]["term"] = sw(H, EXIT)
+        elif kind == "position":
+            EXIT = add(blk_([assign(copy.deepcopy(dest), opt_some({"k": "copy", "place": loc(idx)}))], goto(after)))
+            INC = add(blk_([assign(loc(idx), {"k": "bin", "op": "Add", "a": {"k": "copy", "place": loc(idx)}, "b": {"k": "const", "ty": "usize", "int": 1}})], goto(H)))
+            new[RET - n0]["term"] = sw(INC, EXIT)
+        elif kind == "fold":
+            new[RET - n0]["stmts"].append(assign(loc(acc), {"k": "use", "op": mv(ret)}))
+            new[RET - n0]["term"] = goto(H)
+        else:
+            new[RET - n0]["term"] = goto(H)
+    for nb in new:
+        assert nb["term"] is not None
     c["blocks"].extend(new)
-    c["blocks"].extend(extra)
-    out = [fun.cpath] if fun.kind == "closure" else []
-    if map_fun is not None and map_fun[1].kind == "closure":
-        out.append(map_fun[1].cpath)
+    out = ([fun.cpath] if (fun is not None and fun.kind == "closure") else []) + used
     return out or ["<fn>"]
 
 
@@ -884,7 +941,7 @@ def desugar_iterator_adaptors(raw, strip_lt, log=None):
                 fn = f.get("fn") if f.get("k") == "const" else None
                 d = fn.get("def") if fn else None
                 kind = ADAPTORS.get(d) if fn else None
-                nargs = 3 if kind == "fold" else 2
+                nargs = 3 if kind == "fold" else 1 if kind in ("min", "max") else 2
                 if kind and not keep.get(kind) and len(t.get("args", [])) == nargs and t.get("t") is not None and t.get("dest") is not None:
                     cp = _desugar_one(c, bi, kind, fn, by_path, strip_lt)
                     if cp:
